@@ -57,6 +57,12 @@ class Roles:
         self.maintenance = set(prog.trait_impls.get('common::concurrent::housekeeper::InnerSync::sync', []))
         self.try_sync = {n for n in prog.bodies if any(
             e[0] == 'write' and e[1] == 'common::concurrent::housekeeper::Housekeeper' and e[2] == 'is_sync_running' for e in d.get(n, ()))}
+        # the same role when the flag lives in a nested crate-local struct of the housekeeper: the function that runs the maintenance (calls
+        # InnerSync::sync) and, through the flag's own methods, writes the flag
+        self.sync_flag = sync_flag_fields(prog)
+        if not self.try_sync and self.sync_flag:
+            self.try_sync = {n for n in prog.bodies if prog.bodies[n].kind != 'closure' and (prog.callees(n) & self.maintenance) and
+                             any(('write', a_, f_) in eff.transitive(n) for a_, f_ in self.sync_flag)}
         # read-only list primitives, by what they read and return (names are not used)
         R_ = lambda nid, adt, f: ('read', adt, f) in d.get(nid, ())
         nowrite = lambda nid: not any(e[0] == 'write' for e in d.get(nid, ())) and not eff.mut_params.get(nid)
@@ -70,6 +76,13 @@ class Roles:
         # successor accessor: reads DeqNode.next, writes nothing, returns a node pointer
         self.succ = {n for n in prog.bodies if inlist(n) and R_(n, DEQNODE, 'next') and nowrite(n) and 'DeqNode' in prog.bodies[n].locals[0]['ty']['s']
                      and prog.bodies[n].kind != 'closure' and prog.bodies[n].argc == 1 and 'DeqNode' in prog.bodies[n].locals[1]['ty']['s']}
+        # ... or the next() of a node iterator of the list module that is built on it (yields the successor pointer, keeps it as its state)
+        self.succ |= {n for n in prog.bodies if inlist(n) and prog.bodies[n].trait_item == 'std::iter::Iterator::next' and 'DeqNode' in prog.bodies[n].locals[0]['ty']['s']
+                      and (prog.reachable_from([n]) & self.succ) and not any(e[0] == 'write' and e[1] in (DEQUE, DEQNODE) for x in prog.reachable_from([n]) for e in d.get(x, ()))}
+        # ... and the constructor of such an iterator is a front accessor (the walk it returns starts at the front node)
+        iter_adts = {norm(str((prog.bodies[n].impl_self or {}).get('adt') or '')) for n in self.succ if prog.bodies[n].trait_item == 'std::iter::Iterator::next'}
+        self.front |= {n for n in prog.bodies if inlist(n) and prog.bodies[n].kind != 'closure' and prog.bodies[n].argc == 1 and nowrite(n) and
+                       norm(str(prog.bodies[n].locals[0]['ty'].get('adt') or '')) in iter_adts and (prog.reachable_from([n]) & self.front)}
         # membership test: bool, reads DeqNode.prev of the node it is given
         self.member = {n for n in prog.bodies if inlist(n) and R_(n, DEQNODE, 'prev') and nowrite(n) and prog.bodies[n].locals[0]['ty']['s'] == 'bool'}
         # pop: frees the front node (writes len, calls Box::from_raw) and takes no node
@@ -136,6 +149,26 @@ def ts_name_kind(name):
     if 'access' in n:
         return 'ao'
     return None
+
+
+def sync_flag_fields(prog, root='common::concurrent::housekeeper::Housekeeper'):
+    """[(adt, field)] of the AtomicBool that serialises maintenance: a field of the housekeeper, or of a crate-local struct nested in it."""
+    out = []
+    seen = set()
+    work = [root]
+    while work:
+        an = work.pop()
+        if an in seen or an not in prog.adts:
+            continue
+        seen.add(an)
+        for v in prog.adts[an]['variants']:
+            for f in v['fields']:
+                ty = f['ty']
+                if ty['s'] in ('std::sync::atomic::Atomic<bool>', 'std::sync::atomic::AtomicBool'):
+                    out.append((an, f['name']))
+                elif norm(str(ty.get('adt') or '')) in prog.adts and norm(str(ty.get('adt'))).startswith('common::concurrent::housekeeper::'):
+                    work.append(norm(str(ty['adt'])))
+    return sorted(out)
 
 
 def sync_ts_fields(ctx):
